@@ -111,14 +111,14 @@ func (m *model) lineOffset() int {
 }
 
 type saved struct {
-	l              int
-	p              seg
-	ml, ms, mp     int
+	l          int
+	p          seg
+	ml, ms, mp int
 }
 
 type stats struct {
 	crossed, restoredOtherLine bool
-	ops                         int
+	ops                        int
 }
 
 var last stats
@@ -423,7 +423,9 @@ func segmentOracle(c *kit.Case) error {
 			return kit.Violf("segment-between", "%v.Between(%v) = %v want {%d %d}", s, o, t, a, x)
 		}
 	}
-	isSp := func(ch byte) bool { return ch == ' ' || ch == '\t' || ch == '\n' || ch == '\r' || ch == '\f' || ch == '\v' }
+	isSp := func(ch byte) bool {
+		return ch == ' ' || ch == '\t' || ch == '\n' || ch == '\r' || ch == '\f' || ch == '\v'
+	}
 	u := text.NewSegment(a, b)
 	l := a
 	for l < b && isSp(src[l]) {
